@@ -77,7 +77,10 @@ NUMBER_PAYLOADS = ["", "0", "1", "55", "100", "101", "150", "-1", "-3", "-3.5", 
                    "0.4", "-0.4", "abc", "nan", "inf", "-inf", "1e400", "1e3", "1_0", " 7", "7 ", "+7", "07",
                    "٣", "0x10", "True", "9" * 5000, "1.5", "2.0", "255", str(2**63), "1e2",
                    # digit-like characters: int() / float() accept the Nd ones (any script), isdigit / isnumeric more
-                   "²", "①", "½", "Ⅳ", "１２", "५५", "5²", "⁵"]
+                   "²", "①", "½", "Ⅳ", "１２", "५५", "5²", "⁵",
+                   # digit-count ladder (int -> float conversions overflow from 309 digits, int() refuses from 4301)
+                   *("1" + "0" * (n - 1) for n in (16, 17, 19, 20, 39, 40, 100, 308, 309, 310, 400, 1000, 4299, 4300, 4301)),
+                   "-" + "9" * 350, "0." + "1" * 400, "1e308", "1e309", "-1e309", "1e-400", "9" * 309 + ".5", "1" * 330 + "e-300"]
 
 VERSION_PAYLOADS = ["", "abc", "garbage", "2.x", "2.2-beta", "2", "1.4", "1.5", "1.5.0", "2.0", "2.0.0",
                     "2.1", "2.1.1", "2.2", "2.2.0", "2.3.2", "3.0", "0.9", "1.0.0", "2.10", "1.10.1",
